@@ -6,7 +6,9 @@ Open Scope N_scope.
 
 (* ---------- the test service (harness/src/bin/server.rs: enum M, impl Service for Svc) ---------- *)
 Record xcall := mkCall { ck : N; cc : N; ct : N; cv : N; cow : bool; cmore : bool }.
-Definition xreply := option (N * N).      (* Some (t, v) | None (no parameters) *)
+Inductive xreply := RNum (t v : N)         (* {t, v} *)
+                  | RNone                  (* no parameters *)
+                  | RStr (t sid : N).      (* {t, s}: s = the sid-th echoed string of the case *)
 Definition xerr := (N * N)%type.
 Definition xitem := (N * N)%type.         (* (v, continues: 0 none, 1 true, 2 false) *)
 Definition xstate := (list (N * N) * N)%type.   (* per-client counters, global counter *)
@@ -21,13 +23,14 @@ Fixpoint put (k v : N) (l : list (N * N)) : list (N * N) :=
 
 Definition xhandle (cl : xcall) (s : xstate) : answer xreply xerr * xstate :=
   match ck cl with
-  | 0 => (ASingle (Some (ct cl, cv cl)), s)                        (* Echo *)
-  | 1 => (ASingle None, s)                                          (* Ping *)
+  | 0 => (ASingle (RNum (ct cl) (cv cl)), s)                        (* Echo *)
+  | 1 => (ASingle RNone, s)                                          (* Ping *)
   | 2 => let n := get (cc cl) (fst s) + 1 in                        (* Count: per client *)
-         (ASingle (Some (ct cl, n)), (put (cc cl) n (fst s), snd s))
-  | 3 => let n := snd s + 1 in (ASingle (Some (ct cl, n)), (fst s, n))   (* Total: global *)
+         (ASingle (RNum (ct cl) n), (put (cc cl) n (fst s), snd s))
+  | 3 => let n := snd s + 1 in (ASingle (RNum (ct cl) n), (fst s, n))   (* Total: global *)
   | 4 => (AError (ct cl, cv cl), s)                                 (* Fail *)
-  | _ => (AMulti, s)                                                (* Sub *)
+  | 5 => (AMulti, s)                                                (* Sub *)
+  | _ => (ASingle (RStr (ct cl) (cv cl)), s)                        (* Say: echo a string *)
   end.
 
 (* decimal rendering of a number *)
@@ -39,7 +42,7 @@ Fixpoint dec_fuel (fuel : nat) (n : N) (acc : list byte) : list byte :=
   end.
 Definition dec (n : N) : list byte := dec_fuel 30 n [].
 
-(* templates: the reference renderings split at the numbers: single, ping, error, item0..2 *)
+(* templates: the reference renderings split at the numbers: single, ping, error, item0..2, say *)
 Definition tmpl := list (list (list byte)).
 Definition fill (t : list (list byte)) (ns : list N) : list byte :=
   (fix go (t : list (list byte)) (ns : list N) : list byte :=
@@ -49,10 +52,14 @@ Definition fill (t : list (list byte)) (ns : list N) : list byte :=
      | [], _ => []
      end) t ns.
 
-Definition xrender (tm : tmpl) (m : wmsg xreply xerr xitem) : list byte :=
+(* strs: the echoed strings as serde_json renders them *)
+Definition xrender (tm : tmpl) (strs : list (list byte)) (m : wmsg xreply xerr xitem) : list byte :=
   match m with
-  | WSingle (Some (t, v)) => fill (nth 0 tm []) [t; v]
-  | WSingle None => fill (nth 1 tm []) []
+  | WSingle (RNum t v) => fill (nth 0 tm []) [t; v]
+  | WSingle RNone => fill (nth 1 tm []) []
+  | WSingle (RStr t sid) =>
+      let tp := nth 6 tm [] in
+      nth 0 tp [] ++ dec t ++ nth 1 tp [] ++ nth (N.to_nat sid) strs [] ++ nth 2 tp []
   | WError (t, v) => fill (nth 2 tm []) [t; v]
   | WItem (v, f) => fill (nth (3 + N.to_nat f) tm []) [v]
   end.
@@ -71,9 +78,9 @@ Fixpoint xdecode (t : dtab) (f : list byte) : option xcall :=
       else xdecode t' f
   end.
 
-Definition xparams (step limit : N) (tab : dtab) (tm : tmpl) : params :=
+Definition xparams (step limit : N) (tab : dtab) (tm : tmpl) (strs : list (list byte)) : params :=
   mkParams step limit xcall xreply xerr xitem xstate
-           (xdecode tab) cow (fun cl => N.to_nat (cc cl)) xhandle (xrender tm).
+           (xdecode tab) cow (fun cl => N.to_nat (cc cl)) xhandle (xrender tm strs).
 
 (* ---------- scripts ---------- *)
 Inductive xev :=
@@ -88,20 +95,21 @@ Definition to_eev (Q : params) (mk : N * N -> item Q) (e : xev) : eev Q :=
   end.
 
 Record scase := {
-  sc_step : N; sc_limit : N; sc_tab : dtab; sc_tmpl : tmpl;
+  sc_step : N; sc_limit : N; sc_tab : dtab; sc_tmpl : tmpl; sc_strs : list (list byte);
   sc_script : list xev;
   sc_expect : list (list (list N) * list N);   (* implementation, per poll: trace, unread bytes *)
   sc_hyp : list nat                             (* connections the sequential spec applies to *)
 }.
 
-Definition sc_params (c : scase) : params := xparams (sc_step c) (sc_limit c) (sc_tab c) (sc_tmpl c).
+Definition sc_params (c : scase) : params :=
+  xparams (sc_step c) (sc_limit c) (sc_tab c) (sc_tmpl c) (sc_strs c).
 
 Definition enc_tev (c : scase) (e : tev (sc_params c)) : list N :=
   match e with
   | TAccept k => [1; N.of_nat k]
   | TInvoke _ cl _ => [2; ct cl]
   | TNewStream _ key => [7; N.of_nat key]
-  | TWrite k m => 3 :: N.of_nat k :: xrender (sc_tmpl c) m ++ [0]
+  | TWrite k m => 3 :: N.of_nat k :: xrender (sc_tmpl c) (sc_strs c) m ++ [0]
   | TWriteFail k _ => [4; N.of_nat k]
   | TDrop k => [5; N.of_nat k]
   | TSDrop _ key => [6; N.of_nat key]
@@ -160,12 +168,12 @@ Fixpoint ref_out (c : scase) (fs : list (list byte)) (q : list (option xitem)) (
       | Some cl =>
           let (ans, s') := xhandle cl s in
           match ans with
-          | ASingle p => (if cow cl then [] else [xrender (sc_tmpl c) (WSingle p) ++ [0]]) ++ ref_out c fs' q s'
-          | AError e => (if cow cl then [] else [xrender (sc_tmpl c) (WError e) ++ [0]]) ++ ref_out c fs' q s'
+          | ASingle p => (if cow cl then [] else [xrender (sc_tmpl c) (sc_strs c) (WSingle p) ++ [0]]) ++ ref_out c fs' q s'
+          | AError e => (if cow cl then [] else [xrender (sc_tmpl c) (sc_strs c) (WError e) ++ [0]]) ++ ref_out c fs' q s'
           | AMulti =>
               if cow cl then ref_out c fs' q s' else
               let '(items, q', ended) := take_stream q in
-              map (fun r => xrender (sc_tmpl c) (WItem r) ++ [0]) items
+              map (fun r => xrender (sc_tmpl c) (sc_strs c) (WItem r) ++ [0]) items
               ++ (if ended then ref_out c fs' q' s' else [])
           end
       end
